@@ -53,3 +53,133 @@ def validated_pool(worker, cpu, rnd, want=40, org=None):
 
 def position_independent(text):
     return not re.search(r"[0-9$]", text)
+
+
+# --------------------------------------------------------------------------
+# Structured valid-program generator shared by C12, C13, C18 (no model needed:
+# those properties use consistency / equality oracles).
+from hypothesis import strategies as _st
+
+GEN_CPUS = ["msp430", "z80", "mips", "avr8", "68000", "6502", "riscv", "arm", "stm8", "8051", "powerpc",
+            "6809", "thumb", "pic14", "1802", "sh4", "xtensa", "epiphany", "tms9900", "lc3"]
+
+
+class Prog:
+    """lines of the main file, extra files, and where things are (for corruption placement)"""
+
+    def __init__(self, cpu):
+        self.cpu = cpu
+        self.lines = []
+        self.files = []            # (name, text)
+        self.ctx = []              # parallel to lines: context tag of each line
+        self.macro_invoked = set()
+
+    def add(self, text, ctx="top"):
+        self.lines.append(text)
+        self.ctx.append(ctx)
+
+    def source(self):
+        return "\n".join(self.lines) + "\n"
+
+
+@_st.composite
+def data_stmt(draw):
+    k = draw(_st.integers(0, 5))
+    if k == 0:
+        return ".db " + ", ".join(str(draw(_st.integers(0, 255))) for _ in range(draw(_st.integers(1, 6))))
+    if k == 1:
+        return ".dw " + ", ".join("0x%x" % draw(_st.integers(0, 65535)) for _ in range(draw(_st.integers(1, 4))))
+    if k == 2:
+        return ".dc32 " + ", ".join("0x%x" % draw(_st.integers(0, (1 << 32) - 1)) for _ in range(draw(_st.integers(1, 3))))
+    if k == 3:
+        return ".ascii \"%s\"" % draw(_st.text(alphabet="abcdefXYZ 0123", min_size=1, max_size=10))
+    if k == 4:
+        return ".dc64 0x%x" % draw(_st.integers(0, (1 << 64) - 1))
+    return ".db %d" % draw(_st.integers(0, 255))
+
+
+@_st.composite
+def structured_program(draw, pools, cpus=None, align_data=True):
+    cpu = draw(_st.sampled_from([c for c in (cpus or GEN_CPUS) if pools.get(c)]))
+    pool = pools[cpu]
+    p = Prog(cpu)
+    p.add(".%s" % CPU_FILES.get(cpu, cpu), "header")
+    if draw(_st.booleans()):
+        p.add(".org 0x%x" % draw(_st.sampled_from([0x0, 0x100, 0x200, 0x1000, 0x8000])), "header")
+    nlab = 0
+    nmac = 0
+    macros = []
+    n = draw(_st.integers(2, 14))
+
+    def body(ctx, k):
+        out = []
+        for _ in range(k):
+            if draw(_st.integers(0, 3)) == 0:
+                out.append("  " + draw(data_stmt()))
+                out.append("  .align 64")
+            else:
+                out.append("  " + draw(_st.sampled_from(pool)))
+        return out
+
+    for _ in range(n):
+        c = draw(_st.integers(0, 13))
+        if c <= 4:
+            p.add("  " + draw(_st.sampled_from(pool)), "top")
+        elif c == 5:
+            p.add("  " + draw(data_stmt()), "top")
+            p.add("  .align 64", "top")
+        elif c == 6:
+            p.add("lbl_%d:" % nlab, "top")
+            nlab += 1
+        elif c == 7 and nlab:
+            p.add("  .dc32 lbl_%d" % draw(_st.integers(0, nlab - 1)), "top")
+        elif c == 8:
+            name = "MC%d" % nmac
+            nmac += 1
+            p.add(".macro %s(pa)" % name, "macrodef")
+            p.add("  .db pa, pa + 1", "macro:" + name)
+            p.add("  .align 64", "macro:" + name)
+            for t in body("macro", draw(_st.integers(0, 2))):
+                p.add(t, "macro:" + name)
+            p.add(".endm", "macrodef")
+            macros.append(name)
+        elif c == 9 and macros:
+            m = draw(_st.sampled_from(macros))
+            p.add("  %s(%d)" % (m, draw(_st.integers(0, 200))), "top")
+            p.macro_invoked.add(m)
+        elif c == 10:
+            taken = draw(_st.booleans())
+            p.add(".if %d" % (1 if taken else 0), "ifdir")
+            for t in body("if", draw(_st.integers(1, 3))):
+                p.add(t, "if_taken" if taken else "if_untaken")
+            if draw(_st.booleans()):
+                p.add(".else", "ifdir")
+                for t in body("else", draw(_st.integers(1, 2))):
+                    p.add(t, "if_untaken" if taken else "if_taken")
+            p.add(".endif", "ifdir")
+        elif c == 11:
+            p.add(".repeat %d" % draw(_st.integers(1, 4)), "repeatdir")
+            for _ in range(draw(_st.integers(1, 2))):
+                p.add("  " + draw(data_stmt()), "repeat")
+            p.add(".endr", "repeatdir")
+        elif c == 12:
+            name = "inc%d.inc" % len(p.files)
+            text = "\n".join(body("inc", draw(_st.integers(1, 3)))) + "\n"
+            p.files.append((name, text))
+            p.add(".include \"%s\"" % name, "includedir")
+        else:
+            p.add("  ; a comment line", "top")
+    # forward reference target at the end
+    if draw(_st.booleans()):
+        p.add("  .dc32 lbl_end", "top")
+    p.add("lbl_end:", "top")
+    p.add("  .db 0x5a", "top")
+    return p
+
+
+def make_pools(worker, cpus, want=25, seed=7):
+    import random as _r
+    pools = {}
+    for c in cpus:
+        pools[c] = validated_pool(worker, c, _r.Random(seed * 1000 + sum(map(ord, c))), want=want)
+    return pools
